@@ -598,6 +598,7 @@ pub fn write_evidence(check: &dyn Check, tier: Tier, base: u64, agg: &Aggregate,
         "samples": agg.samples,
         "cases": agg.cases,
         "runs_per_hour": runs_per_hour,
+        "cases_per_hour": if wall > 0.0 { (agg.cases as f64 / wall * 3600.0) as u64 } else { 0 },
         "seeds": {"base": base, "first_case_seed": agg.first_seed, "last_case_seed": agg.last_seed},
         "simulated_steps_total": agg.steps,
         "fault_kinds": agg.faults,
